@@ -518,7 +518,7 @@ fn index_audit(env: &Env, user: bool, bytes: &[u8]) -> Option<String> {
     }
     for (s, ids) in by_surface.iter() {
         let found = catch(|| {
-            let mut v: Vec<u32> = dict.lexicon().lookup(s.as_bytes(), 0).filter(|e| e.end == s.len() && e.word_id.dic() == dic).map(|e| e.word_id.word()).collect();
+            let mut v: Vec<u32> = dict.lexicon().lookup(s.as_bytes(), 0).filter(|e| e.end as usize == s.len() && e.word_id.dic() == dic).map(|e| e.word_id.word()).collect();
             v.sort();
             v
         });
